@@ -16,6 +16,17 @@ open CV CV.TypeDesc CV.Marshal CV.Encode CV.Decode CV.Generic
 structure Leaves where
   names : List String
   ok : String → Val → Prop
+  /-- nesting depth (fuel) the leaf codecs need below the named type itself: 0 for a hand-written marshaller, the depth
+      of the underlying type expression for a named type rendered by the default encoders (`map[string]*string`: 3) -/
+  depth : Nat := 0
+
+/-- a struct type that is decoded field by field by the generic decoder (no `DecodeMapstructure`); it may have a
+    hand-written *marshaller* that pre-processes the value and then renders the struct by its tags (`ServiceConfig.MarshalYAML`
+    clears `Name`): such a type is in scope for the values the pre-processing leaves alone (`Stable`, first conjunct) -/
+def preProcessed : List String := ["ServiceConfig"]
+
+def structOnly (env : Env) (n : String) : Bool :=
+  preProcessed.contains n && (customDecode n).isNone && !hasMethod env n "DecodeMapstructure"
 
 def plainB (env : Env) (fmt : Fmt) (lv : List String) : Nat → TyExpr → Bool
   | 0, _ => false
@@ -26,22 +37,27 @@ def plainB (env : Env) (fmt : Fmt) (lv : List String) : Nat → TyExpr → Bool
   | f + 1, .map e => plainB env fmt lv f e
   | f + 1, .named n =>
     if lv.contains n then true else
-    noCustom env n &&
     match findStruct env.structs n with
     | some s =>
-      nodupB ((s.fields.filter rendered).map (·.goName))
+      (noCustom env n || structOnly env n)
+      && nodupB ((s.fields.filter rendered).map (·.goName))
       && nodupB ((s.fields.filter (keyed fmt)).map (keyOf fmt))
       && s.fields.all fun fd => !rendered fd ||
           (!fd.yamlSkip &&
             (if fd.yamlInline then isNull (zeroVal env f fd.ty) && (fmt == .yaml || skipOf fmt fd)
                 && !((s.fields.filter (keyed fmt)).map (keyOf fmt)).contains fd.yamlKey
-             else !skipOf fmt fd && keyOf fmt fd == fd.yamlKey && plainB env fmt lv f fd.ty))
-    | none => match findNamed env.named n with
+             else if skipOf fmt fd then
+               -- rendered by the other format only (`ServiceConfig.Name`: `json:"-"`): this rendering leaves it out, the
+               -- decoder must not find its key under another field's name
+               !((s.fields.filter (keyed fmt)).map (keyOf fmt)).contains fd.yamlKey
+             else keyOf fmt fd == fd.yamlKey && plainB env fmt lv f fd.ty))
+    | none => noCustom env n && match findNamed env.named n with
       | some e => plainB env fmt lv f e
       | none => false
 
-/-- is the field left out of the rendering? (the encoder's own test for that format) -/
-def omittedF (env : Env) (fmt : Fmt) (fd : FieldDesc) (v : Val) : Bool := omitOf fmt fd && zeroOf env fmt fd.ty v
+/-- is the field left out of the rendering? (skipped by this format's tag, or the encoder's own omitempty test) -/
+def omittedF (env : Env) (fmt : Fmt) (fd : FieldDesc) (v : Val) : Bool :=
+  skipOf fmt fd || (omitOf fmt fd && zeroOf env fmt fd.ty v)
 
 def Stable (env : Env) (fmt : Fmt) (L : Leaves) : Nat → TyExpr → Val → Prop
   | 0, _, _ => False
@@ -51,9 +67,12 @@ def Stable (env : Env) (fmt : Fmt) (L : Leaves) : Nat → TyExpr → Val → Pro
   | f + 1, .slice e, v => ∃ xs, v = .seq xs ∧ xs ≠ [] ∧ ∀ x ∈ xs, Stable env fmt L f e x
   | f + 1, .map e, v => ∃ kvs, v = .map kvs ∧ kvs ≠ [] ∧ ∀ p ∈ kvs, Stable env fmt L f e p.2
   | f + 1, .named n, v =>
-    if L.names.contains n then L.ok n v ∧ v ≠ .null else
+    if L.names.contains n then L.depth ≤ f ∧ L.ok n v ∧ v ≠ .null else
     match findStruct env.structs n with
-    | some s => ∃ vals : FieldDesc → Val,
+    | some s =>
+      -- the type has no marshaller of its own, or its marshaller's pre-processing is the identity on this value
+      (custom fmt n v = none ∨ custom fmt n v = some (.inr (n, v))) ∧
+      ∃ vals : FieldDesc → Val,
         v = .map ((s.fields.filter rendered).map fun fd => (fd.goName, vals fd)) ∧
         ∀ fd ∈ s.fields, rendered fd = true →
           (fd.yamlInline = true → vals fd = .null) ∧
@@ -67,8 +86,8 @@ def Stable (env : Env) (fmt : Fmt) (L : Leaves) : Nat → TyExpr → Val → Pro
 def RT (env : Env) (fmt : Fmt) (f : Nat) (ty : TyExpr) (v : Val) : Prop :=
   ∃ t, encode env fmt f ty v = .ok t ∧ decode env f ty t = .ok v ∧ (v ≠ .null → t ≠ .null)
 
-/-- every leaf has a round trip of its own on its `ok` values, at any nesting depth -/
+/-- every leaf has a round trip of its own on its `ok` values, at any nesting depth from `L.depth` on -/
 def LeafSound (env : Env) (fmt : Fmt) (L : Leaves) : Prop :=
-  ∀ n, L.names.contains n = true → ∀ (f : Nat) (v : Val), L.ok n v → v ≠ .null → RT env fmt (f + 1) (.named n) v
+  ∀ n, L.names.contains n = true → ∀ (f : Nat) (v : Val), L.depth ≤ f → L.ok n v → v ≠ .null → RT env fmt (f + 1) (.named n) v
 
 end CV.GenericF
